@@ -789,3 +789,30 @@ Proof.
   destruct Hb as [rest ->].
   rewrite (dispatch_complete fuel vs (c_class c) (c_instr c) rest k nm c Hnd Hk eq_refl eq_refl), Hdec. reflexivity.
 Qed.
+
+(* ================================================================== end to end over the byte stream *)
+From Zvt Require Import Transport TransportProps.
+
+(* what write_packet puts on the stream for a value of the class, followed by ANYTHING, is read by read_packet as exactly one
+   packet — this variant, this content — and everything behind it is left in the stream *)
+Theorem stream_roundtrip fuel vs k nm c v b rest :
+  nodup_cf (map v_cf vs) = true -> nth_error vs k = Some (nm, c) ->
+  c_class c < 256 -> c_instr c < 256 -> (depth_fields (c_fields c) <= S fuel)%nat ->
+  canon_cmd c v = Some b ->
+  read_packet fuel vs (b ++ rest) = Some (Ok (N.of_nat k, v), rest).
+Proof.
+  intros Hnd Hk Hc Hi Hf Hcan.
+  destruct (reply_roundtrip fuel vs k nm c v b Hnd Hk Hc Hi Hf Hcan) as [_ Hp].
+  assert (Hb : exists body, blen body <= 65535 /\ b = frame_of (c_class c) (c_instr c) body).
+  { unfold canon_cmd in Hcan. destruct (canon_struct (c_fields c) v) as [pl|]; [|discriminate].
+    destruct ((blen pl <=? 65535) && (cf c <? 65536)) eqn:E; [|discriminate]. apply andb_prop in E. destruct E as [E1 E2].
+    exists pl. split; [lia|]. unfold framed_enc in Hcan. cbn [len_ser bind] in Hcan.
+    unfold frame_of. destruct (blen pl <? 255) eqn:E3; cbn [bind] in Hcan; injection Hcan as <-; unfold tag_enc, cf; cbn [app].
+    - replace ((c_class c * 256 + c_instr c) / 256 mod 256) with (c_class c) by lia.
+      replace ((c_class c * 256 + c_instr c) mod 256) with (c_instr c) by lia. reflexivity.
+    - replace ((c_class c * 256 + c_instr c) / 256 mod 256) with (c_class c) by lia.
+      replace ((c_class c * 256 + c_instr c) mod 256) with (c_instr c) by lia.
+      replace (blen pl mod 65536) with (blen pl) by lia. reflexivity. }
+  destruct Hb as [body [Hl ->]]. unfold read_packet.
+  destruct (header_agreement (c_class c) (c_instr c) body rest Hl) as [Hr _]. rewrite Hr, Hp. reflexivity.
+Qed.
